@@ -284,6 +284,8 @@ structure Drv where
   name : Bytes
   sameTime : Bool
   friend : Bool
+  /-- `Allow` also accepts `user.<name>.<x>` (the synthetic drivers); system drivers only their own name -/
+  userDot2 : Bool := true
   deriving DecidableEq, Repr
 
 structure Env where
@@ -305,13 +307,32 @@ def Env.execAddr (env : Env) (name : Bytes) : Bytes :=
   | some a => a
   | none => 0 :: name
 
+/-- the synthetic drivers the harness registers: "vfa" ordinary, "vfb" ExecLocalSameTime,
+"vfc" ordinary + friend rule, "vfd" ExecLocalSameTime + friend rule. -/
+def synthRegistry : List Drv :=
+  [ { name := [118, 102, 97], sameTime := false, friend := false },
+    { name := [118, 102, 98], sameTime := true, friend := false },
+    { name := [118, 102, 99], sameTime := false, friend := true },
+    { name := [118, 102, 100], sameTime := true, friend := true } ]
+
+/-- the system drivers of the node besides `none`: "coins", "manage" (default `Allow`, no friend for
+the transaction shapes used here).  Transactions of generated blocks never name them. -/
+def sysRegistry : List Drv :=
+  [ { name := [99, 111, 105, 110, 115], sameTime := false, friend := false, userDot2 := false },
+    { name := [109, 97, 110, 97, 103, 101], sameTime := false, friend := false, userDot2 := false } ]
+
+def fullRegistry : List Drv := synthRegistry ++ sysRegistry
+
+/-- `types.AllowUserExec` of the harness process: "none" + system dapps + the synthetic names. -/
+def synthAllowUser : List Bytes := [110, 111, 110, 101] :: fullRegistry.map (·.name)
+
 /-- `loadDriver`: `LoadDriver(GetRealExecName(execer))` then the driver's `Allow`
 (own name, or `user.<name>.<x>`); anything else runs on the `none` driver (`none` here). -/
 def loadDriver (env : Env) (execer : Bytes) : Option Drv :=
   let name := C12.getRealExecName execer
   match env.registry.find? (fun d => d.name = name) with
   | some d =>
-    if C12.allowIsSame env.cfg d.name execer || C12.allowIsUserDot2 env.cfg d.name execer then some d
+    if C12.allowIsSame env.cfg d.name execer || (d.userDot2 && C12.allowIsUserDot2 env.cfg d.name execer) then some d
     else none
   | none => none
 
